@@ -332,3 +332,22 @@ Definition spec_C05y (sc : escen) (ob : eobs) : bool :=
 (* the same clause for C04: a run in which every callback succeeded cannot fail with an error the
    framework made up, unless the scenario has a cause for one *)
 Definition spec_C04x (sc : escen) (ob : eobs) : bool := spec_C04 sc ob && fw_clause sc ob.
+
+(* "a run returns nil only if every phase on its path succeeded", the part that can be stated for
+   EVERY table: an error returned by a prep or post callback (of a node or a batch node) is the
+   last callback of its run, and that run fails.  Judges every scenario, also those with batch or
+   partial nodes that the lifecycle monitor does not.  Proved of the model's observation of every
+   scenario in Proofs/PrepPostFatal.v. *)
+Definition is_pp (e : event) : bool :=
+  match ev_call e with CPrep _ _ | CPost _ _ _ _ | CBPost _ _ _ _ => true | _ => false end.
+Definition pp_err (e : event) : bool :=
+  is_pp e && match ev_resp e with RErr _ => true | _ => false end.
+Fixpoint pp_fatal (tr : list event) : bool :=
+  match tr with
+  | [] => true
+  | e :: r => if pp_err e then match r with [] => true | _ => false end else pp_fatal r
+  end.
+Definition pp_run (tr : list event) (oc : act * option err) : bool :=
+  pp_fatal tr && (if existsb pp_err tr then match snd oc with Some _ => true | None => false end else true).
+Definition pp_runs (ob : eobs) : bool := forallb (fun r : erun => let '(tr, oc, _) := r in pp_run tr oc) ob.
+Definition spec_C04y (sc : escen) (ob : eobs) : bool := spec_C04x sc ob && pp_runs ob.
